@@ -1698,7 +1698,20 @@ func (g *functionGenerator) genNext(inst *ssa.Next) (insts []wat.Inst, ret_type 
 		return g.module.EmitGenNext_String(iter)
 	} else {
 		t := inst.Type().(*types.Tuple)
-		return g.module.EmitGenNext_Map(iter, g.tLib.compile(t.At(1).Type()), g.tLib.compile(t.At(2).Type()))
+		kt, vt := t.At(1).Type(), t.At(2).Type()
+		// `for k := range m` / `for range m`: the slots the loop does not use are typed invalid by the
+		// SSA builder; the runtime iterator still yields both, so take their types from the map.
+		if r, ok := inst.Iter.(*ssa.Range); ok {
+			if mt, ok := r.X.Type().Underlying().(*types.Map); ok {
+				if kt == types.Typ[types.Invalid] {
+					kt = mt.Key()
+				}
+				if vt == types.Typ[types.Invalid] {
+					vt = mt.Elem()
+				}
+			}
+		}
+		return g.module.EmitGenNext_Map(iter, g.tLib.compile(kt), g.tLib.compile(vt))
 	}
 }
 
